@@ -46,6 +46,7 @@ def run(prop, tier, seed, t0, H, second=None):
             import random
             rng = random.Random(seed * 31 + 5)
             pairs = [W.gen_restart_pair(f"{seed}-p{i}", rng, tier) for i in range(15 if tier == "quick" else 150)]
+            pairs += [worlddeep.gen_rollback_restart_pair(f"{seed}-q{i}", rng, tier) for i in range(10 if tier == "quick" else 120)]
             pf, pstats = W.oracle_c11(pairs)
             ofails += pf
             extra["restart_pairs"] = pstats
